@@ -1764,3 +1764,184 @@ def c06_transfer_split(env):
 
 
 REGISTRY.setdefault("C06", []).append(c06_transfer_split)
+
+
+# ---- C04: IoReader::fill_buffer never allocates what the wire merely claims -------------------
+
+
+IO_SLACK = 4096  # one page-sized chunk beyond the bytes that actually arrived
+
+
+def c04_io_fill_buffer(env):
+    o = Obligation("c04_io_fill_buffer", "C04")
+    o.desc = "IoReader::fill_buffer(len) with len taken from a size field on the wire (str/sym/vbin lengths, sym32 descriptors): at every point the internal buffer is asked to hold at most the bytes that really arrived plus one 4 KiB chunk, whatever len claims; on Ok the buffer holds at least len bytes and every one of them was read from the reader"
+    senv = env.crate("serde_amqp")
+    fn = senv.fn(r"^ioread::<impl at [^>]*>::fill_buffer$")
+    o.functions = [fn.name]
+    o.bounds = [f"requested length: every 64-bit value; bytes already buffered < 2^32; bytes the reader can still deliver < {3 * IO_SLACK} (so at most 3 chunk iterations; more is shown infeasible)"]
+    o.assumes = ["Vec<u8>::len/resize/reserve/truncate/extend_from_slice and slice indexing per their documented contracts", "io::Read::read_exact(buf) either fills buf completely (reader had >= buf.len() bytes) or fails"]
+    ex = senv.executor(max_visits=6)
+    N = BV64("len.requested")
+    L0 = BV64("buf.len0")
+    A0 = BV64("reader.available")
+    f_buf = senv.fidx("IoReader", "buf")
+
+    def world(st):
+        return st.locals["@world"]
+
+    def grow(st, target):
+        w = world(st)
+        w["events"] = w["events"] + ((target, w["received"], list(st.cond)),)
+
+    def m_len(ex_, st, callee, args, argvals, dty):
+        return world(st)["len"]
+
+    def m_resize(ex_, st, callee, args, argvals, dty):
+        w = world(st)
+        new = argvals[1]
+        grow(st, new)
+        w["len"] = new
+        return mir.Agg("unit")
+
+    def m_reserve(ex_, st, callee, args, argvals, dty):
+        w = world(st)
+        grow(st, w["len"] + argvals[1])
+        return mir.Agg("unit")
+
+    def m_truncate(ex_, st, callee, args, argvals, dty):
+        w = world(st)
+        n = argvals[1]
+        w["len"] = z3.If(z3.ULT(n, w["len"]), n, w["len"])
+        return mir.Agg("unit")
+
+    def container_len(st, callee):
+        m = re.search(r"<\[u8; (\w+)\] as", callee)
+        if m:
+            k = m.group(1)
+            if k.isdigit():
+                return z3.BitVecVal(int(k), 64), "chunk"
+            if k in senv.consts:
+                return z3.BitVecVal(senv.consts[k][0], 64), "chunk"
+            raise mir.Unsupported(f"array length {k} unknown")
+        if re.search(r"<Vec<u8> as|<\[u8\] as", callee):
+            return None, None
+        raise mir.Unsupported(f"index on {callee[:60]}")
+
+    def m_index(ex_, st, callee, args, argvals, dty):
+        clen, what = container_len(st, callee)
+        base = argvals[0]
+        if clen is None:
+            if isinstance(base, mir.Agg) and base.label == "subslice":
+                clen, what, off = base["end"] - base["start"], base["of"], base["start"]
+            else:
+                clen, what, off = world(st)["len"], "buf", z3.BitVecVal(0, 64)
+        else:
+            off = z3.BitVecVal(0, 64)
+        rng = argvals[1]
+        kind = rng.label if isinstance(rng, mir.Agg) else ""
+        if kind == "Range":
+            start, end = rng[0], rng[1]
+        elif kind == "RangeFrom":
+            start, end = rng[0], clen
+        elif kind == "RangeTo":
+            start, end = z3.BitVecVal(0, 64), rng[0]
+        elif kind == "RangeFull" or "RangeFull" in callee:
+            start, end = z3.BitVecVal(0, 64), clen
+        else:
+            raise mir.Unsupported(f"slice index with {kind or callee[:60]}")
+        st.obligations.append(("slice index in bounds", z3.And(z3.ULE(start, end), z3.ULE(end, clen)), list(st.cond)))
+        a = mir.Agg("subslice")
+        a["start"], a["end"], a["of"] = off + start, off + end, what
+        return a
+
+    def m_read_exact(ex_, st, callee, args, argvals, dty):
+        w = world(st)
+        sub = argvals[1]
+        if not (isinstance(sub, mir.Agg) and sub.label == "subslice"):
+            raise mir.Unsupported("read_exact into something that is not a tracked sub-slice")
+        n = sub["end"] - sub["start"]
+        ok = z3.UGE(w["avail"], n)
+        w["reads"] = w["reads"] + ((sub["of"], sub["start"], sub["end"], ok, list(st.cond)),)
+        w["received"] = z3.If(ok, w["received"] + n, w["received"])
+        w["avail"] = z3.If(ok, w["avail"] - n, z3.BitVecVal(0, 64))
+        r = mir.Agg("Result")
+        r["#d"] = z3.If(ok, z3.BitVecVal(0, 64), z3.BitVecVal(1, 64))
+        return r
+
+    def m_extend(ex_, st, callee, args, argvals, dty):
+        w = world(st)
+        sub = argvals[1]
+        if not (isinstance(sub, mir.Agg) and sub.label == "subslice"):
+            raise mir.Unsupported("extend_from_slice from something that is not a tracked sub-slice")
+        n = sub["end"] - sub["start"]
+        grow(st, w["len"] + n)
+        w["copied"] = w["copied"] + n
+        w["len"] = w["len"] + n
+        return mir.Agg("unit")
+
+    ex.models = [
+        (r"^Vec::<u8>::len$", m_len),
+        (r"^Vec::<u8>::resize$", m_resize),
+        (r"^Vec::<u8>::(reserve|reserve_exact)$", m_reserve),
+        (r"^Vec::<u8>::truncate$", m_truncate),
+        (r"^Vec::<u8>::extend_from_slice$", m_extend),
+        (r"as Index(Mut)?<(std::ops::)?Range\w*(<usize>)?>>::index(_mut)?$", m_index),
+        (r"as (std::io::)?Read>::read_exact$", m_read_exact),
+    ]
+    w = mir.Agg("world")
+    w["len"], w["avail"], w["received"], w["copied"] = L0, A0, z3.BitVecVal(0, 64), z3.BitVecVal(0, 64)
+    w["events"], w["reads"] = (), ()
+    rd = mir.Agg("ioreader")
+    paths = ex.run(fn, {"_1": mir.Ref(("@rd",), True), "@rd": rd, "_2": N, "@world": w})
+    hyp = ex.assumptions + [z3.ULT(L0, 1 << 32), z3.ULT(A0, 3 * IO_SLACK)]
+
+    def replay(m):
+        n, l0, a0 = model_value(m, N), model_value(m, L0), model_value(m, A0)
+        claimed = max(min(n, 0x7FFFFFF0), 1)
+        cmds = [f"iofill {kind} {claimed} {min(a0, 64)}" for kind in ("performative", "stronly", "bytesonly")]
+        # directed probes as well: a descriptor / string claiming 1 GiB with 2 bytes present
+        cmds += [f"iofill {kind} 1073741824 2" for kind in ("performative", "stronly", "bytesonly")]
+
+        def bad(outs):
+            return any(js.get("panic") or js["max_alloc"] > js["input_len"] + 2 * IO_SLACK for js in outs)
+
+        return cmds, bad
+
+    n_ok = 0
+    for i, p in enumerate(paths):
+        if p.end.startswith("loop-bound"):
+            o.prove(f"path{i}:three-iterations-suffice-for-the-bounded-reader", hyp + p.cond, z3.BoolVal(False))
+            continue
+        if p.end != "return" or not isinstance(p.ret, mir.Agg):
+            continue
+        wd = p.locals["@world"]
+        for j, (target, received, c) in enumerate(wd["events"]):
+            o.prove(f"path{i}:growth{j}-within-arrived-bytes+4KiB", hyp + c, z3.ULE(target, L0 + received + IO_SLACK), replay=replay)
+        for j, (of, s_, e_, ok, c) in enumerate(wd["reads"]):
+            if of == "chunk":
+                o.prove(f"path{i}:read{j}-chunk-at-most-4KiB", hyp + c, z3.ULE(e_ - s_, IO_SLACK), replay=replay)
+        okd = p.ret.get("#d")
+        if okd is None:
+            raise mir.Unsupported("fill_buffer result without discriminant")
+        H = hyp + p.cond + [okd == 0]
+        n_ok += 1
+        o.prove(f"path{i}:ok-implies-len-bytes-buffered", H, z3.UGE(wd["len"], N), replay=replay)
+        o.prove(f"path{i}:ok-implies-no-more-than-asked", H, wd["len"] == z3.If(z3.UGE(L0, N), L0, N), replay=replay)
+        o.prove(f"path{i}:ok-implies-every-new-byte-came-from-the-reader", H, wd["len"] - L0 == wd["received"], replay=replay)
+        for (d, okc, c) in p.obligations:
+            o.prove(f"path{i}:{d}", hyp + c, okc, replay=replay)
+    o.cover("a call that needs two chunks succeeds", [z3.BoolVal(n_ok > 1)] + hyp + [z3.UGT(N, L0 + IO_SLACK), z3.UGE(A0, N - L0)])
+    # no other function of IoReader grows the buffer by a wire-derived amount
+    growers = []
+    for name, f in senv.fns.items():
+        if not re.match(r"^ioread::<impl at ", name) or name == fn.name:
+            continue
+        for callee in mir.callees(f):
+            if re.search(r"Vec::<u8>::(resize|reserve|reserve_exact|with_capacity|extend_from_slice|from_elem)|vec::from_elem", callee):
+                growers.append(f"{name.split('::')[-1]} -> {callee}")
+    o.prove("only-fill_buffer-sizes-the-buffer-from-a-length", [], z3.BoolVal(not growers), replay=replay)
+    o.functions += [k for k in senv.fns if re.match(r"^ioread::<impl at ", k) and k != fn.name][:12]
+    return [o]
+
+
+REGISTRY.setdefault("C04", []).append(c04_io_fill_buffer)
